@@ -170,19 +170,19 @@ func globalsOfSx(s string) data.Map {
 
 // ---- message bundles on the wire ----
 
-type memBundle struct {
+type jsMemBundle struct {
 	msgs   map[uint64]*soymsg.Message
 	plural func(n int) int
 }
 
-func (b *memBundle) Locale() string { return "xx" }
-func (b *memBundle) Message(id uint64) *soymsg.Message {
+func (b *jsMemBundle) Locale() string { return "xx" }
+func (b *jsMemBundle) Message(id uint64) *soymsg.Message {
 	if b == nil {
 		return nil
 	}
 	return b.msgs[id]
 }
-func (b *memBundle) PluralCase(n int) int {
+func (b *jsMemBundle) PluralCase(n int) int {
 	if b.plural != nil {
 		return b.plural(n)
 	}
@@ -208,7 +208,7 @@ func sxMsgParts(ps []soymsg.Part) []string {
 	return out
 }
 
-func sxMsgs(b *memBundle) string {
+func sxMsgs(b *jsMemBundle) string {
 	if b == nil {
 		return "-"
 	}
@@ -243,7 +243,7 @@ func msgPartsOfSx(ns []*sxNode) []soymsg.Part {
 	return out
 }
 
-func msgsOfSx(s string) *memBundle {
+func msgsOfSx(s string) *jsMemBundle {
 	if s == "-" {
 		return nil
 	}
@@ -251,7 +251,7 @@ func msgsOfSx(s string) *memBundle {
 	if !ok || n.head() != "msgs" {
 		return nil
 	}
-	b := &memBundle{msgs: map[uint64]*soymsg.Message{}}
+	b := &jsMemBundle{msgs: map[uint64]*soymsg.Message{}}
 	for _, m := range n.list[1:] {
 		id, _ := strconv.ParseUint(m.list[0].atom, 10, 64)
 		b.msgs[id] = &soymsg.Message{ID: id, Parts: msgPartsOfSx(m.list[1:])}
@@ -350,7 +350,7 @@ func jsFormatter(name string) soyjs.JSFormatter {
 }
 
 // jsWrite = soyjs.Write on the named file of the registry; ok=false if Write returns an error.
-func jsWrite(reg *template.Registry, file, formatter string, msgs *memBundle) (string, bool) {
+func jsWrite(reg *template.Registry, file, formatter string, msgs *jsMemBundle) (string, bool) {
 	for _, f := range reg.SoyFiles {
 		if f.Name == file {
 			var buf bytes.Buffer
@@ -629,14 +629,14 @@ type jsBundleCase struct {
 	reg     *template.Registry
 	wire    string
 	gwire   string
-	msgs    []*memBundle // nil entry = no bundle
+	msgs    []*jsMemBundle // nil entry = no bundle
 	nt      bool
 }
 
 // translations builds an in-memory bundle for the compiled messages: kind 0 identity, 1 reversed,
 // 2 with extra text (specials) and a duplicated placeholder, 3 with an unknown placeholder (Write fails).
-func translations(reg *template.Registry, r *RNG, kind int) *memBundle {
-	b := &memBundle{msgs: map[uint64]*soymsg.Message{}}
+func translations(reg *template.Registry, r *RNG, kind int) *jsMemBundle {
+	b := &jsMemBundle{msgs: map[uint64]*soymsg.Message{}}
 	for _, m := range allMsgNodes(reg) {
 		if r.Intn(5) == 0 {
 			continue // not translated: the source text is used
@@ -685,7 +685,7 @@ func makeJsBundleCase(bg *bundleGen, r *RNG, hub bool) (*jsBundleCase, error) {
 	}
 	c.wire = sx(parts...)
 	c.gwire = sxGlobals(c.globals)
-	c.msgs = []*memBundle{nil}
+	c.msgs = []*jsMemBundle{nil}
 	if len(allMsgNodes(reg)) > 0 {
 		c.msgs = append(c.msgs, translations(reg, r, r.Intn(4)))
 	}
@@ -732,7 +732,7 @@ func genC14gen(g *G) {
 			continue
 		}
 		wire := sx("files", sxFile(reg.SoyFiles[0]))
-		bundles := []*memBundle{nil}
+		bundles := []*jsMemBundle{nil}
 		if len(allMsgNodes(reg)) > 0 {
 			for k := 0; k < 4; k++ {
 				bundles = append(bundles, translations(reg, NewRNG(uint64(k+1)*7919), k))
